@@ -1,6 +1,7 @@
 //! tpv — conformance harness binding the TLA+ specification in /verif/spec to the real
 //! trust-platform code.  Every sub-command either turns scripts (the environment's half of
 //! a behaviour) into recorded ndjson traces of the real code, or generates scripts.
+mod confcli;
 mod cycle;
 mod dbgwrite;
 mod dbgep;
@@ -50,6 +51,7 @@ fn main() {
         "projreg-run" => projreg::run(rest),
         "retainmgr-run" => retain::mgr_run(rest),
         "resfault-run" => resfault::run(rest),
+        "conf-run" => confcli::run(rest),
         "dbgep-run" => dbgep::run(rest),
         "restartloop-run" => restartloop::run(rest),
         "stfeat" => stfeat::run(rest),
